@@ -556,7 +556,7 @@ def gen_process_program(rng, cfg=None):
                     key = rng.choice(['a', 'b', 'ns.x', 'ns.y', 'ns.deep.z'])
                     group.append({'e': 'out', 'k': key, 'v': gen_value(rng)})
                 elif kind == 'status':
-                    group.append({'e': 'status', 'v': rng.choice(['s1', 's2', 'busy'])})
+                    group.append({'e': 'status', 'v': rng.choice(['s1', 's2', 'busy', ''])})
                 elif kind == 'callsoon':
                     cb_id += 1
                     fail = rng.random() < cfg.get('p_fail_callback', 0.0)
@@ -564,7 +564,7 @@ def gen_process_program(rng, cfg=None):
                     if cfg.get('coro_callbacks') and rng.random() < 0.4:
                         group[-1]['coro'] = True
                 elif kind == 'pause':
-                    group.append({'e': 'pause', 'msg': rng.choice([None, 'self-pause'])})
+                    group.append({'e': 'pause', 'msg': rng.choice([None, '', 'self-pause'])})
                 elif kind == 'play':
                     group.append({'e': 'play'})
                 elif kind == 'kill':
@@ -589,7 +589,7 @@ def gen_process_program(rng, cfg=None):
             elif kind == 'unsuccessful':
                 ret = {'t': 'unsuccessful', 'v': rng.choice([1, 2, 400, 0, None, '', False])}
             elif kind == 'kill':
-                ret = {'t': 'kill', 'msg': rng.choice([None, 'prog-kill'])}
+                ret = {'t': 'kill', 'msg': rng.choice([None, '', 'prog-kill'])}
                 if cfg.get('raw_kill') and rng.random() < 0.4:
                     ret = {'t': 'kill', 'msg': None, 'raw': True}
             else:
